@@ -9,6 +9,7 @@ mod props;
 mod refmodel;
 mod report;
 mod sched;
+mod smem;
 mod srv;
 
 use report::{Reporter, Tier};
